@@ -123,6 +123,30 @@ def run(ck: vlib.Check):
         ck.tie_broken("model-build", "RawExtract.v", mlog)
     if exe is None or mexe is None:
         return
+    # ---- 2b decoder calls running at the same time (RawBinaryReader.arrays decodes its batches on a thread pool with the GIL
+    #         released): nothing may be shared between calls.  Well-formed streams of different sizes, 6 threads, one process, ASan.
+    import os as _os, subprocess as _sp
+    tcases = []
+    while len(tcases) < (16 if ck.tier == "quick" else 48):
+        evs, o = G.gen_stream(ck.rng)
+        if 30 <= len(o.w) <= 4000:
+            tcases.append((ck.rng.choice([63, 63, 15, 32, 48]), o.w))
+    tin = "".join("%d %d %s\n" % (m, len(w), " ".join(map(str, w))) for m, w in tcases)
+    tenv = dict(_os.environ); tenv.update(G.ASAN_ENV)
+    try:
+        tp = _sp.run([str(exe), "--threads", "6", "40" if ck.tier == "quick" else "200"], input=tin, capture_output=True, text=True, env=tenv, timeout=600)
+        tout = (tp.stdout or "").strip().splitlines()
+        ck.cov["concurrent_decoder_calls"] = {"streams": len(tcases), "threads": 6, "result": tout[-1] if tout else "", "rc": tp.returncode}
+        for i in range(6 * len(tcases)):
+            ck.case(["threads", i])
+        if tp.returncode != 0 or not tout or not tout[-1].startswith("THREADS OK"):
+            head = next((l for l in (tp.stderr or "").splitlines() if "ERROR: AddressSanitizer" in l or "runtime error" in l), (tout[-1] if tout else "no output"))
+            ck.violation("threads:" + (head.split("AddressSanitizer: ")[1].split()[0] if "AddressSanitizer: " in head else head.split()[1] if head.startswith("THREADS") else "abort"),
+                         f"decoding {len(tcases)} well-formed streams on 6 threads at the same time (one process, as the reader's thread pool does) "
+                         f"differs from decoding them one at a time: {head[:300]}",
+                         {"mode": "threads", "cases": [[m, w] for m, w in tcases[:4]], "stderr": (tp.stderr or "")[-1500:]})
+    except _sp.TimeoutExpired:
+        ck.violation("threads:timeout", "concurrent decoder calls did not finish within 600 s", {"mode": "threads"})
     # ---- 3 run everything
     cases = gen_cases(ck)
     cw = [(c["mask"], c["w"]) for c in cases]
